@@ -157,7 +157,14 @@ func c20Table(x *c20Ctx, c *cluster, build *c20Ref) bool {
 	n := len(c.nodes)
 	evals := 0
 	defer func() { x.r.Eval(evals) }()
-	for rep := 0; rep <= 9 && ok; rep++ {
+	// start with the replica count the cluster was built (and asked for owners) with, so that
+	// anything it remembers from before the last membership change is read first
+	first := c.ReplicaN
+	if first < 0 || first > 9 {
+		first = 0
+	}
+	for k := 0; k <= 9 && ok; k++ {
+		rep := (first + k) % 10
 		c.ReplicaN = rep
 		x.r.Cover(c20RepClass[rep])
 		for p := 0; p < defaultPartitionN; p++ {
@@ -368,6 +375,9 @@ func c20Build(via string, order []string, self string, single bool, rng *vk.Rand
 	case "basic":
 		for _, id := range order {
 			c.addNodeBasicSorted(vcNode(id))
+			for p := 0; p < 8; p++ {
+				_ = c.partitionNodes(p * 37 % defaultPartitionN) // asked between joins as well
+			}
 		}
 	case "addNode":
 		c.Topology = newTopology()
@@ -453,6 +463,12 @@ func c20Build(via string, order []string, self string, single bool, rng *vk.Rand
 			} else if !c.removeNodeBasicSorted(e[1:]) {
 				return nil, fmt.Errorf("removeNodeBasicSorted(%q) found nothing", e[1:])
 			}
+			// ownership is asked for between membership changes too (queries, imports and syncs do that
+			// all the time): whatever the node remembers from before must not survive the change
+			for p := 0; p < 24; p++ {
+				_ = c.partitionNodes(p * 11 % defaultPartitionN)
+			}
+			_ = c.shardNodes("i", uint64(rng.Intn(50)))
 		}
 	}
 	return c, nil
